@@ -18,6 +18,7 @@ META = dict(
     required_hits=["flavor_action", "xgrid_poly_exact", "xgrid_matrix", "xgrid_smallx"],
     max_inconclusive_frac=0.05,
 )
+META["level_text"] += ' One-sided rotations pass an explicit identity for the untouched side in half of the cases; new grids are listed in descending order in a fifth of the cases.'
 
 TOL_FLAV = 1e-11
 TOL_POLY = 1e-9
